@@ -18,6 +18,14 @@ def identity(x):
     return x
 
 
+def plus_total(block, m=None):
+    """block + (sum of the whole array handed in as a keyword argument).  The function must be given the
+    finalized NumPy value, never the lazy collection (which would compute inside a task)."""
+    if not isinstance(m, (np.ndarray, np.generic)):
+        raise TypeError(f"keyword operand arrived as {type(m).__module__}.{type(m).__name__}, not as its computed value")
+    return block + np.asarray(m, dtype="f8").sum()
+
+
 def local_sum(block, radii=()):
     """Shape-preserving stencil: sum over a (2r+1) window along each axis in
     ``radii`` ([[axis, r], ...]) with edge replication at the block's own edges.
